@@ -167,12 +167,19 @@ def effect():
     extract_effect.generate_shuffle(REPO, OUT, write_if_changed)
 
 
+def floats():
+    """the parameter logic of Exp / Normal / LogNormal and UniformFloat, translated to Lean definitions over the IEEE model's vocabulary (tools/extract_float.py)"""
+    import extract_float
+    extract_float.generate(REPO, OUT, write_if_changed)
+
+
 def main():
     traits()
     sys.path.insert(0, os.path.dirname(os.path.abspath(__file__)))
     simd()
     scalar()
     effect()
+    floats()
     if os.path.exists(os.path.join(os.path.dirname(os.path.abspath(__file__)), "extract_zig.py")):
         import extract_zig
         extract_zig.tables(REPO, OUT, write_if_changed)
